@@ -1,6 +1,7 @@
 CONSTANTS
   PathDot = "fixed"
   AnyQuote = "fixed"
+  DefaultVia = "to_url"
   KeyDefaults = "count"
 INIT Init
 NEXT Next
